@@ -20,6 +20,8 @@ import (
 	"io"
 	"io/fs"
 	"os"
+	"regexp"
+	"runtime"
 	"sort"
 	"strconv"
 	"strings"
@@ -389,6 +391,8 @@ type world struct {
 
 	omu    sync.Mutex
 	outage string // fault word applied to every call at its site (the store is down), "" = up
+
+	rejected atomic.Int32 // calls refused by the outage since the last `outage` / `restart` op
 }
 
 type bp struct {
@@ -488,6 +492,7 @@ func (g *gen) faultOf(br blob.Ref, site string) string {
 	o := g.w.outage
 	g.w.omu.Unlock()
 	if b, _, _ := splitKind(o); o != "" && b == site {
+		g.w.rejected.Add(1)
 		return o
 	}
 	return ""
@@ -824,7 +829,8 @@ type Exec struct {
 }
 
 func newExecState() *Exec {
-	e := &Exec{w: &world{src: newMapStore(), dst: newMapStore(), queue: sorted.NewMemoryKeyValue()},
+	w0 := &world{src: newMapStore(), dst: newMapStore(), queue: sorted.NewMemoryKeyValue()}
+	e := &Exec{w: w0,
 		ids: map[string]int{}, acked: map[int]bool{}, upl: map[int]*parkedOp{}, cps: map[int]*parkedOp{}}
 	e.g = newGen(e.w)
 	if err := e.g.newHandler(false); err != nil {
@@ -834,7 +840,16 @@ func newExecState() *Exec {
 }
 
 // Close makes the current generation inert (leaked loop goroutines of live handlers only ever see errors).
-func (e *Exec) Close() { e.g.kill() }
+func (e *Exec) Close() {
+	e.g.kill()
+	// a live handler's syncLoop goroutine never ends and keeps its (now inert) wrappers and through
+	// them this world reachable: drop the blob data
+	for _, m := range []*mapStore{e.w.src, e.w.dst} {
+		m.mu.Lock()
+		m.m = map[blob.Ref][]byte{}
+		m.mu.Unlock()
+	}
+}
 
 func parseID(s string) (int, bool) {
 	if s == "" || len(s) > 4 {
@@ -858,14 +873,32 @@ func (e *Exec) note(i int) blob.Ref {
 	return br
 }
 
-func waitParkedOrDone(b *bp, done chan error) (parked bool, err error, hang bool) {
+func (e *Exec) waitParkedOrDone(b *bp, done chan error) (parked bool, err error, hang bool) {
+	t := time.NewTimer(e.wd("park"))
+	defer t.Stop()
 	select {
 	case <-b.parked:
 		return true, nil, false
 	case err = <-done:
 		return false, err, false
-	case <-time.After(10 * time.Second):
+	case <-t.C:
+		e.LastDump = stackDump(6000)
+		e.broken = "hang"
 		return false, nil, true
+	}
+}
+
+// waitDone waits for a released parked operation to finish.
+func (e *Exec) waitDone(done chan error) (err error, hang bool) {
+	t := time.NewTimer(e.wd("park"))
+	defer t.Stop()
+	select {
+	case err = <-done:
+		return err, false
+	case <-t.C:
+		e.LastDump = stackDump(6000)
+		e.broken = "hang"
+		return nil, true
 	}
 }
 
@@ -988,7 +1021,7 @@ func (e *Exec) Step(ws []string) string {
 		b := e.g.arm(e.g.bpSet, br.String(), ws[3], errOfFault(ws[2], "qseterr"))
 		done := make(chan error, 1)
 		go func() { done <- e.upload(i, br) }()
-		parked, err, hang := waitParkedOrDone(b, done)
+		parked, err, hang := e.waitParkedOrDone(b, done)
 		e.g.disarm(e.g.bpSet, br.String())
 		e.setUpFault(br, "ok")
 		if hang {
@@ -1017,10 +1050,8 @@ func (e *Exec) Step(ws []string) string {
 		}
 		delete(e.upl, i)
 		p.b.free()
-		var err error
-		select {
-		case err = <-p.done:
-		case <-time.After(10 * time.Second):
+		err, hang := e.waitDone(p.done)
+		if hang {
 			return "hang"
 		}
 		if err != nil {
@@ -1063,7 +1094,7 @@ func (e *Exec) Step(ws []string) string {
 		b := e.g.arm(e.g.bpDel, br.String(), ws[4], errOfFault(ws[3], "qdelerr"))
 		done := make(chan error, 1)
 		go func() { done <- e.g.sh.VerifCopyBlob(ctx, sb) }()
-		parked, err, hang := waitParkedOrDone(b, done)
+		parked, err, hang := e.waitParkedOrDone(b, done)
 		e.g.disarm(e.g.bpDel, br.String())
 		e.setCopyFault(br, "ok", "ok")
 		if hang {
@@ -1091,10 +1122,8 @@ func (e *Exec) Step(ws []string) string {
 		}
 		delete(e.cps, i)
 		p.b.free()
-		var err error
-		select {
-		case err = <-p.done:
-		case <-time.After(10 * time.Second):
+		err, hang := e.waitDone(p.done)
+		if hang {
 			return "hang"
 		}
 		if err != nil {
@@ -1180,15 +1209,13 @@ func (e *Exec) runSyncLoop() string {
 		}
 		done <- total
 	}()
-	wd := 10 * time.Second
-	if stalls.Load() > 0 {
-		wd = 1500 * time.Millisecond
-	}
+	t := time.NewTimer(e.wd("runsync"))
+	defer t.Stop()
 	select {
 	case total := <-done:
 		return fmt.Sprintf("copied=%d", total)
-	case <-time.After(wd):
-		stalls.Add(1)
+	case <-t.C:
+		e.LastDump = stackDump(6000)
 		e.broken = "stalled"
 		need, _ := e.pending()
 		return fmt.Sprintf("stalled need=%d", len(need))
@@ -1221,6 +1248,25 @@ func (e *Exec) stepLive(ws []string) string {
 		e.w.omu.Lock()
 		e.w.outage = ws[1]
 		e.w.omu.Unlock()
+		e.w.rejected.Store(0)
+		return "ok"
+	case len(ws) == 2 && ws[0] == "awaitfail":
+		// wait (under the settle watchdog) until the outage has refused K calls since the last
+		// `outage` / `restart`: makes "a whole batch failed while the store was down" a fact
+		// instead of a matter of timing
+		kk, ok := parseID(ws[1])
+		if !ok {
+			return "bad-op"
+		}
+		deadline := time.Now().Add(e.wd("settle"))
+		for int(e.w.rejected.Load()) < kk {
+			if time.Now().After(deadline) {
+				e.LastDump = stackDump(6000)
+				e.broken = "stalled"
+				return "timeout " + e.Dump()
+			}
+			time.Sleep(time.Millisecond)
+		}
 		return "ok"
 	case len(ws) == 1 && ws[0] == "recover":
 		e.w.omu.Lock()
@@ -1228,28 +1274,21 @@ func (e *Exec) stepLive(ws []string) string {
 		e.w.omu.Unlock()
 		return "ok"
 	case len(ws) == 1 && ws[0] == "restart":
+		e.w.rejected.Store(0)
 		e.restart(true)
 		if e.broken != "" {
 			return "broken:" + e.broken
 		}
 		return "ok"
 	case len(ws) == 1 && ws[0] == "settle":
-		// watchdog: the real loop polls every queueSyncInterval (5 s), so a pending blob may
-		// legitimately wait that long after a missed wake-up; more than two intervals is a stall
-		wd := 12 * time.Second
-		if sawTimeout.Load() {
-			wd = 7 * time.Second
-		}
-		deadline := time.Now().Add(wd)
+		deadline := time.Now().Add(e.wd("settle"))
 		for {
 			need, copying := e.pending()
 			if len(need) == 0 && len(copying) == 0 {
 				return e.Dump()
 			}
 			if time.Now().After(deadline) {
-				sawTimeout.Store(true)
-				stalls.Add(1)
-				liveStalls.Add(1)
+				e.LastDump = stackDump(6000)
 				e.broken = "stalled"
 				return "timeout " + e.Dump()
 			}
